@@ -19,13 +19,22 @@ META = {
             '"#" marker (decided counterexample 1.5 = 1.# = 1.7; "#" is not part of the ecosystem grammar); for Alpine on valid versions whose later components have no leading zero '
             '(unrestricted statement refuted by the decided witness 1.0 = 1 = 1.00, 1.0 < 1.00 — known finding C07/alpine-leading-zero-padding); for Maven on versions whose token '
             'list is canonical: first number, dot-numbers, then only dash-prefixed qualifiers/numbers, N(.N)*(-qualifier|-N)* (unrestricted statement refuted by the decided witness '
-            '1 < 1.foo < 1rc, 1 > 1rc — known finding C07/maven-qualifier-cycle). Published rule: agreement with semver.org §11 is proved on ALL canonically rendered versions (C07_semver_spec; '
-            'after repair 6209aa57 the identifier -5 is alphanumeric) and re-checked by the oracle on the implementation for every canonical semver pair. NOT DISCHARGED / not formalised: agreement with the published Debian (deb-version), RubyGems and CRAN rules. '
+            '1 < 1.foo < 1rc, 1 > 1rc — known finding C07/maven-qualifier-cycle). Published rules: for six ecosystem families an INDEPENDENT specification is written from the documentation (Spec/Semantic/*.lean: structured version V, '
+            'canonical text render, ordering specCmp; the spec files import none of the models) and the agreement model-compare(render a, render b) = specCmp a b is proved for ALL '
+            'well-formed V by induction over the segment lists: semver.org §11 (C07_semver_spec), deb-version(7) for Debian/Ubuntu (C07_debian_spec: epoch, upstream, revision, '
+            'alternating non-digit/digit runs, letters before non-letters, ~ before everything even the end, missing revision = 0), PEP 440 for PyPI (C07_pypi_spec: epoch, '
+            'zero-padded release, .devN < aN < bN < rcN < none < .postN, local labels; the proof runs the model of the backtracking PEP 440 regexp on the normalised text), '
+            'Gem::Version for RubyGems (C07_rubygems_spec: canonical segments, strings below numbers, missing = 0), the NuGet documentation (C07_nuget_spec: SemVer 2 + legacy '
+            'revision, case-insensitive labels, metadata ignored) and R package_version for CRAN (C07_cran_spec: lexicographic integer sequences). The driver prints the spec verdict '
+            'for every pair that reads as canonical and the oracle compares the IMPLEMENTATION with it (about a quarter to a half of the generated pairs of these families, see '
+            'coverage.spec_oracle_pairs), so a changed ordering rule becomes a concrete failing input even when all order laws still hold. Canonical classes: Debian without ":" in the '
+            'upstream part; RubyGems numerals without leading zeros (outside it the code deviates from Ruby: 1.1.0.rc < 1.1.00.rc although Ruby reads 00 as 0 — reported as a defect '
+            'candidate, not part of the canonical clause); the Debian/PyPI/NuGet/CRAN readers accept leading zeros because the rules compare values. '
+            'NOT DISCHARGED / not formalised: published rules of Red Hat (rpmvercmp), Packagist, Alpine and Maven; that the readers of the oracle invert render is proved for semver, Debian, RubyGems and CRAN '
+            '(C07_semver_specParse_render, C07_spec_readers) and checked on examples only for the NuGet and PyPI readers. '
             'Fuel: Debian, Red Hat, Packagist fuel is eliminated in the proofs; Maven trimLoop/walkDown exhaustion is a panic outcome of the model and is excluded by C07_maven_total; '
             'for the Alpine number-prefix / suffix finder and the PyPI legacy splitter / regexp star C07_fuel_adequate shows that any fuel above the argument length gives the same result '
-            '(what is not proved is only that the star inside the PEP 440 recogniser is always applied to a suffix of the input, i.e. to something no longer than the length the fuel was '
-            'computed from; if that failed the model would stop iterating early and accept fewer strings as PEP 440 — a model/implementation mismatch in the stream, never an unsound theorem, '
-            'since the order theorems are stated on parsed values). The reader specParse of the oracle provably inverts render (C07_semver_specParse_render).',
+            '(not proved: that the star inside the PEP 440 recogniser is only applied to suffixes of the input in general; on normalised texts C07_pypi_spec covers it).',
     'note': 'Trusted: Lean kernel; axioms propext/Quot.sound/Classical.choice at most; big.Int.SetString on a non-empty ASCII digit string succeeds; strings.Compare on valid UTF-8 = code point order; '
             'strings.ToLower modelled on the generator alphabet; Go regexp leftmost-first semantics as transcribed in the recognisers; the Go harness and line protocol.',
 }
@@ -36,12 +45,13 @@ THEOREMS = ([P + 'C07_%s_total' % f for f in FAMS] + [P + 'C07_%s_refl' % f for 
             [P + 'C07_%s_trans' % f for f in ['semver', 'nuget', 'cran', 'debian', 'rubygems', 'redhat', 'pypi']] +
             [P + 'C07_packagist_trans_partial', P + 'C07_packagist_trans_fails', P + 'C07_alpine_trans_partial', P + 'C07_alpine_trans_fails',
              P + 'C07_maven_trans_partial', P + 'C07_maven_trans_fails', P + 'C07_all_total', P + 'C07_all_refl', P + 'C07_all_antisymm', P + 'C07_eco_total', P + 'C07_unsupported',
-             P + 'C07_semver_spec', P + 'C07_semver_hyphen_identifier', P + 'C07_semver_specParse_render', P + 'C07_fuel_adequate', P + 'C07_cran_nonnumeric', P + 'C07_packagist_long_number'])
+             P + 'C07_semver_spec', P + 'C07_debian_spec', P + 'C07_pypi_spec', P + 'C07_rubygems_spec', P + 'C07_nuget_spec', P + 'C07_cran_spec', P + 'C07_spec_readers', P + 'C07_semver_hyphen_identifier', P + 'C07_semver_specParse_render', P + 'C07_fuel_adequate', P + 'C07_cran_nonnumeric', P + 'C07_packagist_long_number'])
 
 ECO_FAM = {'npm': 'semver', 'crates.io': 'semver', 'Go': 'semver', 'Hex': 'semver', 'Pub': 'semver', 'ConanCenter': 'semver', 'NuGet': 'nuget', 'CRAN': 'cran',
            'Debian': 'debian', 'Ubuntu': 'debian', 'RubyGems': 'rubygems', 'Red_Hat': 'redhat', 'Packagist': 'packagist', 'PyPI': 'pypi', 'Alpine': 'alpine', 'Maven': 'maven'}
 KEYS = ['r', 'rr', 'ra', 'rb', 'acc', 'ab', 'bc', 'ac']
 FLIP = {'lt': 'gt', 'gt': 'lt', 'eq': 'eq'}
+RULES = {'semver': 'semver.org §11', 'debian': 'deb-version(7)', 'pypi': 'PEP 440', 'rubygems': 'Gem::Version', 'nuget': 'NuGet docs / SemVer 2', 'cran': 'R package_version'}
 KNOWN = {'alpine': 'C07/alpine-leading-zero-padding', 'maven': 'C07/maven-qualifier-cycle'}
 
 
@@ -66,7 +76,8 @@ def oracle(case, fi, fm):
             if FLIP[r] != rr:
                 return 'antisymmetry: a?b=%s but b?a=%s' % (r, rr)
         if 'spec' in fm and fi.get('r') != fm['spec']:
-            return 'published rule: semver.org §11 orders these canonical versions %s, the implementation answers %s' % (fm['spec'], fi.get('r'))
+            return 'published rule (%s): the ecosystem\'s documented ordering of these canonical versions is %s, the implementation answers %s' % (
+                RULES.get(ECO_FAM.get(t[1]), '?'), fm['spec'], fi.get('r'))
         return None
     if t[0] == 'tri':
         if acc != '111' or fm.get('gv') != '111':
@@ -112,7 +123,7 @@ def _shard(args):
     p = subprocess.run([binary] + gen_args, stdout=subprocess.PIPE, stderr=subprocess.PIPE, text=True, env=e, errors='replace')
     rows = [l.partition('\t') for l in p.stdout.split('\n') if l]
     out = {'gen_rc': p.returncode, 'gen_err': p.stderr[-600:], 'n': len(rows), 'nontrivial': set(), 'dist': {}, 'mismatch': [], 'n_mismatch': 0,
-           'viol': [], 'n_viol': 0, 'known': {}, 'samples': [], 'driver_note': ''}
+           'viol': [], 'n_viol': 0, 'known': {}, 'samples': [], 'driver_note': '', 'spec': {}}
     cases = [r[0] for r in rows]
     model = []
     if cases:
@@ -129,6 +140,9 @@ def _shard(args):
             out['nontrivial'].add(hashlib.sha1(case.encode()).digest()[:8])
         c = classify(case, fi, fm)
         out['dist'][c] = out['dist'].get(c, 0) + 1
+        if 'spec' in fm:
+            k = ECO_FAM.get(case.split(' ')[1], '?')
+            out['spec'][k] = out['spec'].get(k, 0) + 1
         if i < 2 or (i % 50021 == 0 and len(out['samples']) < 4):
             out['samples'].append({'case': case[:600], 'impl': impl[:300], 'model': mod[:300]})
         verdict = oracle(case, fi, fm)
@@ -158,6 +172,9 @@ def stream(ctx, binary, driver, jobs):
         ctx.nontrivial |= o['nontrivial']
         for k, v in o['dist'].items():
             ctx.dist[k] = ctx.dist.get(k, 0) + v
+        sp = ctx.extra.setdefault('spec_oracle_pairs', {})
+        for k, v in o['spec'].items():
+            sp[k] = sp.get(k, 0) + v
         for s in o['samples']:
             if len(ctx.samples) < 12:
                 ctx.samples.append(s)
